@@ -157,6 +157,7 @@ type Sim struct {
 	stopped   atomic.Bool
 	bypass    atomic.Int32
 	teardown  atomic.Bool
+	free      bool // race mode
 	actions   []*Action
 	invariant func() // called after every quiescence
 
@@ -289,9 +290,17 @@ func (s *Sim) Wake() {
 func (s *Sim) AddAction(a *Action) {
 	s.mu.Lock()
 	s.actions = append(s.actions, a)
+	free := s.free
 	s.mu.Unlock()
+	if free {
+		s.fireFree(a)
+		return
+	}
 	s.Wake()
 }
+
+// Free reports whether the run is in race mode (no central scheduler).
+func (s *Sim) Free() bool { return s.free }
 
 // After registers an action at sim time now+d.
 func (s *Sim) After(d time.Duration, name string, f func()) {
@@ -638,6 +647,75 @@ func (s *Sim) Run(app func()) {
 	}
 	s.tracef("end %v", s.finished)
 	s.Stop()
+}
+
+// freeSched is the scheduler of the race mode: no central hand-off (it would
+// order everything and blind the race detector); every yield point sleeps a
+// hash-derived number of fake nanoseconds to vary the interleaving.
+type freeSched struct {
+	seed uint64
+	n    atomic.Uint64
+}
+
+func (f *freeSched) Park(label string) {
+	x := splitmix(f.seed ^ f.n.Add(1)*0x9e3779b97f4a7c15 ^ uint64(len(label)))
+	if d := x % 4; d > 0 {
+		time.Sleep(time.Duration(d))
+	}
+}
+
+func (f *freeSched) Choose(label string, n int) int {
+	return int(splitmix(f.seed^f.n.Add(1)) % uint64(n))
+}
+
+// RunFree executes app without the central scheduler (race mode, C36): the
+// network delivers at once, simulator actions fire on their own timers.
+func (s *Sim) RunFree(app func()) {
+	s.start = time.Now()
+	s.rootG = goid()
+	s.parkCh = make(chan *parked, 1)
+	s.wakeCh = make(chan struct{}, 1)
+	s.free = true
+	s.Net.auto.Store(true)
+	simhook.Install(&freeSched{seed: s.Seed})
+	done := make(chan struct{})
+	go func() {
+		defer close(done)
+		app()
+	}()
+	s.mu.Lock()
+	acts := append([]*Action(nil), s.actions...)
+	s.mu.Unlock()
+	for _, a := range acts {
+		s.fireFree(a)
+	}
+	select {
+	case <-done:
+		s.finished = true
+	case <-time.After(s.Horizon):
+		s.TimedOut = true
+	}
+	s.End = s.Now()
+	s.stopped.Store(true)
+	simhook.Install(nil)
+	s.Net.shutdown()
+	for i := 0; i < 20; i++ {
+		synctest.Wait()
+	}
+}
+
+func (s *Sim) fireFree(a *Action) {
+	go func() {
+		if d := a.At - s.Now(); d > 0 {
+			time.Sleep(d)
+		}
+		if s.stopped.Load() {
+			return
+		}
+		if a.Ready == nil || a.Ready() {
+			a.Do()
+		}
+	}()
 }
 
 // Stop removes the scheduler: parked goroutines are released and run freely,
